@@ -25,6 +25,7 @@ import (
 	"github.com/comdex-official/comdex/x/liquidity"
 	"github.com/comdex-official/comdex/x/liquidity/amm"
 	liqkeeper "github.com/comdex-official/comdex/x/liquidity/keeper"
+	v1liquidity "github.com/comdex-official/comdex/x/liquidity/legacy/v1"
 	liqtypes "github.com/comdex-official/comdex/x/liquidity/types"
 )
 
@@ -34,6 +35,14 @@ type c04Pair struct {
 	app, id     uint64
 	base, quote string
 	last, batch uint64
+	lastPrice   string // pair.LastPrice as raw 10^-18 integer, "-" when nil
+}
+
+func c04LastPrice(pr liqtypes.Pair) string {
+	if pr.LastPrice == nil {
+		return "-"
+	}
+	return pr.LastPrice.BigInt().String()
 }
 type c04Pool struct {
 	app, id, pair    uint64
@@ -107,6 +116,10 @@ type c04Env struct {
 	feeRate map[uint64]sdkmath.LegacyDec
 	okCnt   int
 	msgCnt  int
+	migWait int64 // see nextBlock
+	migAt   int64 // height at whose start (after the previous EndBlocker, before the BeginBlocker — where x/upgrade runs module migrations) the store migration 1 -> 2 is run; 0 = never
+	foreign bool // the next deposit / pool-creation message carries a coin denom that is not in the pair
+	v1      bool // version-1 world: no market-making orders, no ranged pools (the store can be re-encoded in the v1 layout)
 	tiny    bool // tiny-price markets (prices around 10^-4 .. 10^-3): many truncations to zero in the matching engine
 }
 
@@ -227,9 +240,10 @@ func c04NewEnv(t *testing.T, tr *Trace, rng *Rng, prop string, variant int) *c04
 	for _, a := range e.apps {
 		p, _ := e.k.GetGenericParams(e.ctx, a)
 		e.feeRate[a] = p.SwapFeeRate
-		acfg = append(acfg, fmt.Sprintf("%d:%s:%d:%d:%s:%s:%s:%s:%d", a, p.SwapFeeRate.BigInt().String(), p.BatchSize,
+		acfg = append(acfg, fmt.Sprintf("%d:%s:%d:%d:%s:%s:%s:%s:%d:%d:%s:%d", a, p.SwapFeeRate.BigInt().String(), p.BatchSize,
 			int64(p.MaxOrderLifespan/time.Second), p.PairCreationFee.AmountOf("ucmdx"), p.PoolCreationFee.AmountOf("ucmdx"),
-			p.MinInitialDepositAmount, p.MinInitialPoolCoinSupply, p.MaxNumActivePoolsPerPair))
+			p.MinInitialDepositAmount, p.MinInitialPoolCoinSupply, p.MaxNumActivePoolsPerPair,
+			p.TickPrecision, p.MaxPriceLimitRatio.BigInt().String(), p.MaxNumMarketMakingOrderTicks))
 		if len(p.PairCreationFee) != 1 || len(p.PoolCreationFee) != 1 {
 			t.Fatal("creation fee denoms")
 		}
@@ -277,7 +291,7 @@ func (e *c04Env) project() *c04Proj {
 		accts[fmt.Sprintf("du%d", a)] = liqtypes.DeriveDustCollectorAddress(a)
 		accts[fmt.Sprintf("fc%d", a)] = liqtypes.DeriveFeeCollectorAddress(a)
 		for _, pr := range e.k.GetAllPairs(ctx, a) {
-			p.pairs = append(p.pairs, c04Pair{a, pr.Id, pr.BaseCoinDenom, pr.QuoteCoinDenom, pr.LastOrderId, pr.CurrentBatchId})
+			p.pairs = append(p.pairs, c04Pair{a, pr.Id, pr.BaseCoinDenom, pr.QuoteCoinDenom, pr.LastOrderId, pr.CurrentBatchId, c04LastPrice(pr)})
 			accts[fmt.Sprintf("pe%d.%d", a, pr.Id)] = pr.GetEscrowAddress()
 			accts[fmt.Sprintf("sf%d.%d", a, pr.Id)] = pr.GetSwapFeeCollectorAddress()
 		}
@@ -384,7 +398,7 @@ func (e *c04Env) state() {
 	}
 	sort.Strings(bal)
 	for _, x := range p.pairs {
-		pairs = append(pairs, fmt.Sprintf("%d:%d:%s:%s:%d:%d", x.app, x.id, e.dcode(x.base), e.dcode(x.quote), x.last, x.batch))
+		pairs = append(pairs, fmt.Sprintf("%d:%d:%s:%s:%d:%d:%s", x.app, x.id, e.dcode(x.base), e.dcode(x.quote), x.last, x.batch, x.lastPrice))
 	}
 	for _, x := range p.pools {
 		pools = append(pools, fmt.Sprintf("%d:%d:%d:%s:%s:%s:%d:%d", x.app, x.id, x.pair, c04b(x.ranged), c04b(x.disabled), x.ps, x.lastDep, x.lastWdr))
@@ -607,8 +621,16 @@ func (e *c04Env) endBlocker() {
 			}
 			du := fmt.Sprintf("du%d", a)
 			dust := cur.get(du, e.dcode(pr.quote)).Sub(prev.get(du, e.dcode(pr.quote)))
-			if len(fills[pr.id]) > 0 || len(flows[pr.id]) > 0 || !dust.IsZero() {
-				ms = append(ms, fmt.Sprintf("%d/%s/%s/%s", pr.id, strings.Join(fills[pr.id], ","), strings.Join(flows[pr.id], ","), dust))
+			lastChanged := false
+			for _, pp := range prev.pairs {
+				if pp.app == a && pp.id == pr.id && pp.lastPrice != pr.lastPrice {
+					lastChanged = true
+					e.tr.Count("batch:last_price_changed")
+				}
+			}
+			if len(fills[pr.id]) > 0 || len(flows[pr.id]) > 0 || !dust.IsZero() || lastChanged {
+				// the match price (pair.LastPrice after the batch) is an observed result of the matching engine (C05)
+				ms = append(ms, fmt.Sprintf("%d/%s/%s/%s/%s", pr.id, strings.Join(fills[pr.id], ","), strings.Join(flows[pr.id], ","), dust, pr.lastPrice))
 				e.tr.Count("batch:matched")
 			}
 			for _, pp := range prev.pairs {
@@ -624,6 +646,124 @@ func (e *c04Env) endBlocker() {
 		e.tr.Line("lq.eb", u(a), strings.Join(ms, "|"), strings.Join(dins, ","), strings.Join(wins, ","), outcome)
 	}
 	e.state()
+}
+
+// ---------------------------------------------------------------------------------------------------------
+// store migration 1 -> 2
+// ---------------------------------------------------------------------------------------------------------
+
+// migrate re-encodes the liquidity store in the consensus-version-1 layout (generic params, pools, orders as legacy/v1
+// protobufs: the state a chain has right before the upgrade) and runs the REAL registered migration
+// keeper.Migrator.Migrate1to2 (module.go: cfg.RegisterMigration(types.ModuleName, 1, m.Migrate1to2)).  Only possible
+// when the state is representable in the v1 layout: no market-making orders / indexes, no ranged pools.
+func (e *c04Env) migrate() bool {
+	p := e.prev
+	for _, o := range p.orders {
+		if o.typ == int(liqtypes.OrderTypeMM) {
+			e.tr.Count("migrate:skipped_mm_orders")
+			return false
+		}
+	}
+	if len(p.mms) > 0 {
+		e.tr.Count("migrate:skipped_mm_index")
+		return false
+	}
+	for _, pl := range p.pools {
+		if pl.ranged {
+			e.tr.Count("migrate:skipped_ranged_pool")
+			return false
+		}
+	}
+	store := e.ctx.KVStore(e.app.GetKey(liqtypes.StoreKey))
+	cdc := e.app.AppCodec()
+	before := map[uint64]liqtypes.GenericParams{}
+	nPartial, nLive, nOrders := 0, 0, 0
+	for _, a := range e.apps {
+		params, err := e.k.GetGenericParams(e.ctx, a)
+		if err != nil {
+			e.t.Fatal(err)
+		}
+		before[a] = params
+		oldParams := v1liquidity.GenericParams{
+			BatchSize: params.BatchSize, TickPrecision: params.TickPrecision, FeeCollectorAddress: params.FeeCollectorAddress,
+			DustCollectorAddress: params.DustCollectorAddress, MinInitialPoolCoinSupply: params.MinInitialPoolCoinSupply,
+			PairCreationFee: params.PairCreationFee, PoolCreationFee: params.PoolCreationFee,
+			MinInitialDepositAmount: params.MinInitialDepositAmount, MaxPriceLimitRatio: params.MaxPriceLimitRatio,
+			MaxOrderLifespan: params.MaxOrderLifespan, SwapFeeRate: params.SwapFeeRate, WithdrawFeeRate: params.WithdrawFeeRate,
+			DepositExtraGas: params.DepositExtraGas, WithdrawExtraGas: params.WithdrawExtraGas, OrderExtraGas: params.OrderExtraGas,
+			SwapFeeDistrDenom: params.SwapFeeDistrDenom, SwapFeeBurnRate: params.SwapFeeBurnRate, AppId: params.AppId,
+		}
+		store.Set(liqtypes.GetGenericParamsKey(a), cdc.MustMarshal(&oldParams))
+		for _, pool := range e.k.GetAllPools(e.ctx, a) {
+			oldPool := v1liquidity.Pool{
+				Id: pool.Id, PairId: pool.PairId, ReserveAddress: pool.ReserveAddress, PoolCoinDenom: pool.PoolCoinDenom,
+				LastDepositRequestId: pool.LastDepositRequestId, LastWithdrawRequestId: pool.LastWithdrawRequestId,
+				Disabled: pool.Disabled, AppId: pool.AppId,
+			}
+			store.Set(liqtypes.GetPoolKey(pool.AppId, pool.Id), cdc.MustMarshal(&oldPool))
+		}
+		for _, order := range e.k.GetAllOrders(e.ctx, a) {
+			oldOrder := v1liquidity.Order{
+				Id: order.Id, PairId: order.PairId, MsgHeight: order.MsgHeight, Orderer: order.Orderer,
+				Direction: v1liquidity.OrderDirection(order.Direction), OfferCoin: order.OfferCoin,
+				RemainingOfferCoin: order.RemainingOfferCoin, ReceivedCoin: order.ReceivedCoin, Price: order.Price,
+				Amount: order.Amount, OpenAmount: order.OpenAmount, BatchId: order.BatchId, ExpireAt: order.ExpireAt,
+				Status: v1liquidity.OrderStatus(order.Status), AppId: a,
+			}
+			store.Set(liqtypes.GetOrderKey(a, order.PairId, order.Id), cdc.MustMarshal(&oldOrder))
+			nOrders++
+			if order.Status.IsMatchable() {
+				nLive++
+				if order.RemainingOfferCoin.Amount.LT(order.OfferCoin.Amount) {
+					nPartial++
+				}
+			}
+		}
+	}
+	var err error
+	outcome := "ok"
+	panicked, _ := try(func() { err = liqkeeper.NewMigrator(e.k).Migrate1to2(e.ctx) })
+	if panicked {
+		outcome = "panic"
+	} else if err != nil {
+		outcome = "err"
+	}
+	// the model's Cfg holds the parameters for the whole history: the three fields the migration resets must come out as they were
+	for _, a := range e.apps {
+		after, err := e.k.GetGenericParams(e.ctx, a)
+		if err != nil {
+			e.t.Fatal(err)
+		}
+		b := before[a]
+		if after.TickPrecision != b.TickPrecision || after.MaxNumMarketMakingOrderTicks != b.MaxNumMarketMakingOrderTicks ||
+			after.MaxNumActivePoolsPerPair != b.MaxNumActivePoolsPerPair {
+			e.t.Fatalf("harness assumption: the migration's parameter defaults differ from the parameters of app %d", a)
+		}
+		if !after.SwapFeeRate.Equal(b.SwapFeeRate) || after.BatchSize != b.BatchSize || after.MaxOrderLifespan != b.MaxOrderLifespan ||
+			!after.MaxPriceLimitRatio.Equal(b.MaxPriceLimitRatio) || !after.MinInitialDepositAmount.Equal(b.MinInitialDepositAmount) ||
+			!after.MinInitialPoolCoinSupply.Equal(b.MinInitialPoolCoinSupply) || !after.PairCreationFee.IsEqual(b.PairCreationFee) ||
+			!after.PoolCreationFee.IsEqual(b.PoolCreationFee) {
+			e.tr.Count("migrate:params_changed") // the next messages will show it as DIFF
+		}
+	}
+	e.tr.Count(fmt.Sprintf("migrate:orders=%s", c04Bucket(nOrders)))
+	e.tr.Count(fmt.Sprintf("migrate:live=%s", c04Bucket(nLive)))
+	e.tr.Count(fmt.Sprintf("migrate:partially_filled_live=%s", c04Bucket(nPartial)))
+	e.emit("lq.migrate", outcome)
+	return true
+}
+
+func c04Bucket(n int) string {
+	switch {
+	case n == 0:
+		return "0"
+	case n <= 2:
+		return "1-2"
+	case n <= 9:
+		return "3-9"
+	default:
+		return "10+"
+	}
 }
 
 // ---------------------------------------------------------------------------------------------------------
@@ -679,6 +819,16 @@ func (e *c04Env) createPool(app uint64, ui int, pairID uint64, x, y sdkmath.Int,
 	if found {
 		qd, bd = pr.QuoteCoinDenom, pr.BaseCoinDenom
 	}
+	if e.foreign {
+		// a deposit coin whose denom is not in the pair (pool.go:90 / 249): ValidateBasic passes, the keeper refuses
+		bd = "ucoine"
+		if qd == bd {
+			bd = "ucmdx"
+		}
+		ext = false
+		e.foreign = false
+		e.tr.Count("createPool:foreign_denom")
+	}
 	coins := sdk.Coins{}
 	if x.IsPositive() {
 		coins = coins.Add(sdk.NewCoin(qd, x))
@@ -726,6 +876,12 @@ func (e *c04Env) poolDenoms(app, poolID uint64) (quote, base string, ok bool) {
 
 func (e *c04Env) depositCoins(app, poolID uint64, x, y sdkmath.Int) sdk.Coins {
 	qd, bd, _ := e.poolDenoms(app, poolID)
+	if e.foreign {
+		bd = "ucoine" // not in any pair of the menu (pool.go:382 / 847)
+		if qd == bd {
+			bd = "ucmdx"
+		}
+	}
 	coins := sdk.Coins{}
 	if x.IsPositive() {
 		coins = coins.Add(sdk.NewCoin(qd, x))
@@ -738,8 +894,13 @@ func (e *c04Env) depositCoins(app, poolID uint64, x, y sdkmath.Int) sdk.Coins {
 
 func (e *c04Env) deposit(app uint64, ui int, poolID uint64, x, y sdkmath.Int) {
 	msg := liqtypes.NewMsgDeposit(app, e.users[ui], poolID, e.depositCoins(app, poolID, x, y))
+	ext := !(e.foreign && y.IsPositive())
+	if e.foreign {
+		e.tr.Count("deposit:foreign_denom")
+	}
+	e.foreign = false
 	out := e.deliver(msg)
-	e.emit("lq.deposit", out, u(app), strconv.Itoa(ui), u(poolID), x.String(), y.String(), "1")
+	e.emit("lq.deposit", out, u(app), strconv.Itoa(ui), u(poolID), x.String(), y.String(), c04b(ext))
 }
 
 func (e *c04Env) withdraw(app uint64, ui int, poolID uint64, pc sdkmath.Int, wrongDenom bool) {
@@ -752,7 +913,8 @@ func (e *c04Env) withdraw(app uint64, ui int, poolID uint64, pc sdkmath.Int, wro
 	e.emit("lq.withdraw", out, u(app), strconv.Itoa(ui), u(poolID), pc.String(), c04b(!wrongDenom))
 }
 
-// order places a limit (typ 1) or market (typ 2) order.
+// order places a limit (typ 1) or market (typ 2) order.  Only the message is emitted: the tick-fitted price and the price /
+// denom validations are computed by the Lean model from the message, the app's parameters and the pair's last price.
 func (e *c04Env) order(app uint64, ui int, pairID uint64, typ int, buy bool, msgOffer sdkmath.Int, msgPrice sdkmath.LegacyDec, amt sdkmath.Int, lifespan int64, swapDenoms bool) {
 	pr, found := e.pair(app, pairID)
 	od, dd := "ucoina", "ucoinb"
@@ -763,90 +925,89 @@ func (e *c04Env) order(app uint64, ui int, pairID uint64, typ int, buy bool, msg
 			od, dd = pr.BaseCoinDenom, pr.QuoteCoinDenom
 		}
 	}
-	ext := true
-	if swapDenoms {
+	switch {
+	case swapDenoms:
 		od, dd = dd, od
-		ext = false
+		e.tr.Count("order:denoms=swapped")
+	case found && e.rng.Chance(1):
+		dd = "ucoine" // a demand denom that is not in the pair (coin index 5 is in no pair of the menu)
+		if dd == od {
+			dd = "ucmdx"
+		}
+		e.tr.Count("order:denoms=foreign_demand")
+	case found && e.rng.Chance(1):
+		od = dd // offer denom = demand denom: ValidateBasic
+		e.tr.Count("order:denoms=same")
 	}
 	dir := liqtypes.OrderDirectionSell
 	if buy {
 		dir = liqtypes.OrderDirectionBuy
 	}
-	price := msgPrice
 	var msg sdk.Msg
-	tp := e.tickPrec(app)
-	params, _ := e.k.GetGenericParams(e.ctx, app)
 	if typ == 1 {
 		msg = liqtypes.NewMsgLimitOrder(app, e.users[ui], pairID, dir, sdk.NewCoin(od, msgOffer), dd, msgPrice, amt, time.Duration(lifespan)*time.Second)
-		if found && msgPrice.IsPositive() {
+		if found && msgPrice.IsPositive() { // statistics only
 			lo, hi := e.priceLimits(app, pr)
-			if msgPrice.GT(hi) || msgPrice.LT(lo) {
-				ext = false
-			}
-			if buy {
-				price = amm.PriceToDownTick(msgPrice, tp)
-			} else {
-				price = amm.PriceToUpTick(msgPrice, tp)
+			tp := e.tickPrec(app)
+			switch {
+			case msgPrice.GT(hi):
+				e.tr.Count("order:price=above_limit")
+			case msgPrice.LT(lo):
+				e.tr.Count("order:price=below_limit")
+			case msgPrice.Equal(hi) || msgPrice.Equal(lo):
+				e.tr.Count("order:price=at_limit")
+			case amm.PriceToDownTick(msgPrice, tp).Equal(msgPrice):
+				e.tr.Count("order:price=on_tick")
+			default:
+				e.tr.Count("order:price=off_tick")
 			}
 		}
 	} else {
 		msg = liqtypes.NewMsgMarketOrder(app, e.users[ui], pairID, dir, sdk.NewCoin(od, msgOffer), dd, amt, time.Duration(lifespan)*time.Second)
 		msgPrice = sdkmath.LegacyZeroDec()
-		price = sdkmath.LegacyOneDec()
 		if found {
 			if pr.LastPrice == nil {
-				ext = false
-			} else if buy {
-				price = amm.PriceToDownTick(pr.LastPrice.Mul(sdkmath.LegacyOneDec().Add(params.MaxPriceLimitRatio)), tp)
+				e.tr.Count("order:market=no_last_price")
 			} else {
-				price = amm.PriceToUpTick(pr.LastPrice.Mul(sdkmath.LegacyOneDec().Sub(params.MaxPriceLimitRatio)), tp)
+				e.tr.Count("order:market=with_last_price")
 			}
 		}
 	}
 	out := e.deliver(msg)
-	e.emit("lq.order", out, u(app), strconv.Itoa(ui), u(pairID), strconv.Itoa(typ), c04b(buy), msgOffer.String(),
-		msgPrice.BigInt().String(), price.BigInt().String(), amt.String(), i64(lifespan), c04b(ext))
+	e.emit("lq.order", out, u(app), strconv.Itoa(ui), u(pairID), strconv.Itoa(typ), c04b(buy), e.dcode(od), e.dcode(dd), msgOffer.String(),
+		msgPrice.BigInt().String(), amt.String(), i64(lifespan))
 }
 
-func (e *c04Env) ticks(ts []liqtypes.MMOrderTick) string {
-	var ss []string
-	for _, t := range ts {
-		ss = append(ss, fmt.Sprintf("%s:%s:%s", t.OfferCoinAmount, t.Price.BigInt().String(), t.Amount))
-	}
-	return strings.Join(ss, ",")
-}
-
+// mmOrder delivers a MsgMMOrder.  Only the message is emitted: ValidateBasic, the on-tick / in-range validations and
+// MMOrderTicks are computed by the Lean model.
 func (e *c04Env) mmOrder(app uint64, ui int, pairID uint64, maxSell, minSell sdkmath.LegacyDec, sellAmt sdkmath.Int, maxBuy, minBuy sdkmath.LegacyDec, buyAmt sdkmath.Int, lifespan int64) {
 	msg := liqtypes.NewMsgMMOrder(app, e.users[ui], pairID, maxSell, minSell, sellAmt, maxBuy, minBuy, buyAmt, time.Duration(lifespan)*time.Second)
-	ext := msg.ValidateBasic() == nil
-	var buys, sells []liqtypes.MMOrderTick
-	if pr, found := e.pair(app, pairID); found && ext {
+	if pr, found := e.pair(app, pairID); found && msg.ValidateBasic() == nil { // statistics only
 		params, _ := e.k.GetGenericParams(e.ctx, app)
 		tp := int(params.TickPrecision)
 		lo, hi := e.priceLimits(app, pr)
 		on := func(p sdkmath.LegacyDec) bool { return amm.PriceToDownTick(p, tp).Equal(p) }
 		in := func(p sdkmath.LegacyDec) bool { return !p.LT(lo) && !p.GT(hi) }
-		if sellAmt.IsPositive() && !(on(minSell) && on(maxSell) && in(minSell) && in(maxSell)) {
-			ext = false
-		}
-		if buyAmt.IsPositive() && !(on(minBuy) && on(maxBuy) && in(minBuy) && in(maxBuy)) {
-			ext = false
-		}
-		if ext {
+		switch {
+		case sellAmt.IsPositive() && !(on(minSell) && on(maxSell)), buyAmt.IsPositive() && !(on(minBuy) && on(maxBuy)):
+			e.tr.Count("mmOrder:prices=off_tick")
+		case sellAmt.IsPositive() && !(in(minSell) && in(maxSell)), buyAmt.IsPositive() && !(in(minBuy) && in(maxBuy)):
+			e.tr.Count("mmOrder:prices=out_of_range")
+		default:
 			n := int(params.MaxNumMarketMakingOrderTicks)
+			k := 0
 			if buyAmt.IsPositive() {
-				buys = liqtypes.MMOrderTicks(liqtypes.OrderDirectionBuy, minBuy, maxBuy, buyAmt, n, tp)
+				k += len(liqtypes.MMOrderTicks(liqtypes.OrderDirectionBuy, minBuy, maxBuy, buyAmt, n, tp))
 			}
 			if sellAmt.IsPositive() {
-				sells = liqtypes.MMOrderTicks(liqtypes.OrderDirectionSell, minSell, maxSell, sellAmt, n, tp)
+				k += len(liqtypes.MMOrderTicks(liqtypes.OrderDirectionSell, minSell, maxSell, sellAmt, n, tp))
 			}
+			e.tr.Count(fmt.Sprintf("mmOrder:ticks=%d", k))
 		}
 	}
 	out := e.deliver(msg)
-	if !ext {
-		buys, sells = []liqtypes.MMOrderTick{{OfferCoinAmount: sdkmath.OneInt(), Price: sdkmath.LegacyOneDec(), Amount: sdkmath.OneInt()}}, nil
-	}
-	e.emit("lq.mmOrder", out, u(app), strconv.Itoa(ui), u(pairID), e.ticks(buys), e.ticks(sells), i64(lifespan), c04b(ext))
+	e.emit("lq.mmOrder", out, u(app), strconv.Itoa(ui), u(pairID), maxSell.BigInt().String(), minSell.BigInt().String(), sellAmt.String(),
+		maxBuy.BigInt().String(), minBuy.BigInt().String(), buyAmt.String(), i64(lifespan))
 }
 
 func (e *c04Env) cancel(app uint64, ui int, pairID, id uint64) {
@@ -891,8 +1052,11 @@ func (e *c04Env) depositAndFarm(app uint64, ui int, poolID uint64, x, y sdkmath.
 			ax, ay, pc = amm.Deposit(rx.Amount, ry.Amount, ps, x, y)
 		}
 	}
-	out := e.deliver(liqtypes.NewMsgDepositAndFarm(app, e.users[ui], poolID, e.depositCoins(app, poolID, x, y)))
-	e.emit("lq.depositAndFarm", out, u(app), strconv.Itoa(ui), u(poolID), x.String(), y.String(), ax.String(), ay.String(), pc.String(), "1")
+	coins := e.depositCoins(app, poolID, x, y)
+	ext := !(e.foreign && y.IsPositive())
+	e.foreign = false
+	out := e.deliver(liqtypes.NewMsgDepositAndFarm(app, e.users[ui], poolID, coins))
+	e.emit("lq.depositAndFarm", out, u(app), strconv.Itoa(ui), u(poolID), x.String(), y.String(), ax.String(), ay.String(), pc.String(), c04b(ext))
 }
 
 func (e *c04Env) unfarmAndWithdraw(app uint64, ui int, poolID uint64, amt sdkmath.Int) {
@@ -922,6 +1086,21 @@ func (e *c04Env) nextBlock(dt int64) {
 		h++
 	}
 	e.block(h, e.now+dt)
+	if e.migAt != 0 && h >= e.migAt {
+		// a chain upgrade: x/upgrade's BeginBlocker runs the registered module migrations before the other BeginBlockers.
+		// Random histories wait (up to migWait blocks) for a moment at which a partially filled order is alive.
+		partial := false
+		for _, o := range e.prev.orders {
+			if o.status <= int(liqtypes.OrderStatusPartiallyMatched) && o.rem.LT(o.offer) && o.expire > e.now+dt {
+				partial = true
+			}
+		}
+		if partial || h >= e.migAt+e.migWait {
+			if e.migrate() {
+				e.migAt = 0
+			}
+		}
+	}
 	e.beginBlocker()
 }
 
@@ -1037,6 +1216,31 @@ func (e *c04Env) genLimit(tiny bool) {
 	if !price.IsPositive() {
 		price = sdkmath.LegacyNewDecWithPrec(1, 3)
 	}
+	if pr, found := e.pair(app, pairID); found && pr.LastPrice != nil && e.rng.Chance(10) {
+		// boundary-directed: exactly the price limits, one tick / one raw unit beyond and inside
+		lo, hi := e.priceLimits(app, pr)
+		tp := e.tickPrec(app)
+		ulp := sdkmath.LegacySmallestDec()
+		switch e.rng.Intn(8) {
+		case 0:
+			price = hi
+		case 1:
+			price = lo
+		case 2:
+			price = hi.Add(ulp)
+		case 3:
+			price = lo.Sub(ulp)
+		case 4:
+			price = amm.UpTick(hi, tp)
+		case 5:
+			price = amm.DownTick(lo, tp)
+		case 6:
+			price = hi.Sub(ulp)
+		case 7:
+			price = lo.Add(ulp)
+		}
+		e.tr.Count("order:price_boundary")
+	}
 	amt := e.amount()
 	if tiny {
 		amt = amt.MulRaw(int64(1 + e.rng.Intn(40)))
@@ -1048,6 +1252,10 @@ func (e *c04Env) genLimit(tiny bool) {
 		if !amt.IsPositive() {
 			amt = minAmt
 		}
+	}
+	if e.rng.Chance(4) && minAmt.GT(sdkmath.NewInt(101)) {
+		amt = minAmt.SubRaw(1) // price·amount just below the module's minimum: ErrTooSmallOrder (swap.go:102)
+		e.tr.Count("order:too_small_directed")
 	}
 	tp := e.tickPrec(app)
 	tick := amm.PriceToUpTick(price, tp)
@@ -1092,7 +1300,16 @@ func (e *c04Env) genMarket() {
 		offer = ref.MulInt(amt).MulInt64(112).QuoInt64(100).Ceil().TruncateInt()
 	}
 	msgOffer := offer.MulRaw(102).QuoRaw(100).AddRaw(2)
-	if pr, found := e.pair(app, pairID); found && pr.LastPrice != nil && e.rng.Chance(60) {
+	if pr, found := e.pair(app, pairID); found && pr.LastPrice != nil && e.rng.Chance(6) {
+		// price·amount below the module's minimum (swap.go:219): amounts 100 … 100/price
+		lim := sdkmath.LegacyNewDec(100).Quo(*pr.LastPrice).TruncateInt()
+		if lim.GT(sdkmath.NewInt(110)) {
+			amt = sdkmath.NewInt(100).Add(sdkmath.NewInt(int64(e.rng.Intn(int(lim.Int64()-100)))))
+			offer = amt.MulRaw(2).AddRaw(200)
+			msgOffer = offer
+			e.tr.Count("order:market_too_small_directed")
+		}
+	} else if found && pr.LastPrice != nil && e.rng.Chance(60) {
 		// exact need
 		params, _ := e.k.GetGenericParams(e.ctx, app)
 		tp := int(params.TickPrecision)
@@ -1105,14 +1322,15 @@ func (e *c04Env) genMarket() {
 		}
 		fee := offer.ToLegacyDec().MulTruncate(params.SwapFeeRate).TruncateInt()
 		msgOffer = offer.Add(fee)
-		if e.rng.Chance(5) {
-			msgOffer = msgOffer.SubRaw(1)
+		if e.rng.Chance(15) {
+			msgOffer = msgOffer.SubRaw(1) // one below what is needed (swap.go:201 / 214)
+			e.tr.Count("order:market_offer_one_short")
 		}
 	}
 	if !msgOffer.IsPositive() {
 		msgOffer = sdkmath.OneInt()
 	}
-	e.order(app, ui, pairID, 2, buy, msgOffer, sdkmath.LegacyZeroDec(), amt, e.lifespan(app), false)
+	e.order(app, ui, pairID, 2, buy, msgOffer, sdkmath.LegacyZeroDec(), amt, e.lifespan(app), e.rng.Chance(4))
 }
 
 func (e *c04Env) genMM() {
@@ -1134,11 +1352,58 @@ func (e *c04Env) genMM() {
 	case 2:
 		minSell = maxSell // single tick
 	case 3:
-		maxSell = pct(1500) // out of range
+		// one of the four prices out of range
+		switch e.rng.Intn(4) {
+		case 0:
+			maxSell = down(pct(1500))
+		case 1:
+			minSell, maxSell = down(pct(1300)), down(pct(1500))
+		case 2:
+			minBuy = down(pct(-1500))
+		case 3:
+			minBuy, maxBuy = down(pct(-1500)), down(pct(-1300))
+		}
+		e.tr.Count("mmOrder:gen_out_of_range")
 	case 4:
-		minBuy = minBuy.Add(sdkmath.LegacyNewDecWithPrec(1, 12)) // off tick
+		// one of the four prices off the tick grid
+		eps := sdkmath.LegacyNewDecWithPrec(1, 12)
+		switch e.rng.Intn(4) {
+		case 0:
+			minBuy = minBuy.Add(eps)
+		case 1:
+			maxBuy = maxBuy.Add(eps)
+		case 2:
+			minSell = minSell.Add(eps)
+		case 3:
+			maxSell = maxSell.Add(eps)
+		}
+		e.tr.Count("mmOrder:gen_off_tick")
+	case 5:
+		maxSell = amm.UpTick(amm.UpTick(minSell, tp), tp) // two ticks apart: the tick walk produces consecutive duplicates
+		minBuy = amm.DownTick(maxBuy, tp)                  // adjacent ticks
+	case 6:
+		if pr, found := e.pair(app, pairID); found && pr.LastPrice != nil {
+			lo, hi := e.priceLimits(app, pr)
+			switch e.rng.Intn(4) {
+			case 0:
+				maxSell = hi // exactly the upper limit
+			case 1:
+				maxSell = amm.UpTick(hi, tp) // one tick beyond
+			case 2:
+				minBuy = lo
+			case 3:
+				minBuy = amm.DownTick(lo, tp)
+			}
+			e.tr.Count("mmOrder:price_boundary")
+		}
 	}
 	e.mmOrder(app, ui, pairID, maxSell, minSell, sellAmt, maxBuy, minBuy, buyAmt, e.lifespan(app))
+	if e.rng.Chance(8) {
+		// a second MsgMMOrder of the same owner in the same batch: the replace must fail with ErrSameBatch (swap.go:373) and
+		// leave the first one's orders and index exactly as they are
+		e.tr.Count("mmOrder:replace_same_batch")
+		e.mmOrder(app, ui, pairID, maxSell, minSell, sellAmt, maxBuy, minBuy, buyAmt, e.lifespan(app))
+	}
 }
 
 func (e *c04Env) genCancel() {
@@ -1157,6 +1422,9 @@ func (e *c04Env) genCancel() {
 		return
 	}
 	app := e.pickApp()
+	if e.rng.Chance(25) {
+		app = uint64([]int{0, 4, 7}[e.rng.Intn(3)]) // no such app (swap.go:445)
+	}
 	e.cancel(app, e.pickUser(), e.pickPair(app), uint64(e.rng.Intn(30)))
 }
 
@@ -1240,6 +1508,10 @@ func (e *c04Env) genCancelAll() {
 		pairs = []uint64{e.pickPair(app), e.pickPair(app)} // possibly duplicate / zero
 	}
 	e.tr.Count(fmt.Sprintf("cancelAll:pairs=%d/of=%d", len(pairs), len(ids)))
+	if e.rng.Chance(4) {
+		app = uint64([]int{0, 4, 7}[e.rng.Intn(3)]) // no such app (swap.go:496)
+		e.tr.Count("cancelAll:unknown_app")
+	}
 	e.cancelAll(app, ui, pairs)
 }
 
@@ -1288,13 +1560,13 @@ func (e *c04Env) genCreatePool() {
 	if e.rng.Chance(5) {
 		x = sdkmath.NewInt(int64(e.rng.Intn(1_000_001))) // around MinInitialDepositAmount
 	}
-	if e.rng.Chance(45) {
+	if !e.v1 && e.rng.Chance(45) {
 		tp := e.tickPrec(app)
 		p := sdkmath.LegacyNewDec(ratio).QuoInt64(100)
 		initP := amm.PriceToDownTick(p, tp)
 		minP := amm.PriceToDownTick(p.MulInt64(int64(50+e.rng.Intn(45))).QuoInt64(100), tp)
 		maxP := amm.PriceToDownTick(p.MulInt64(int64(105+e.rng.Intn(100))).QuoInt64(100), tp)
-		switch e.rng.Intn(10) {
+		switch e.rng.Intn(14) {
 		case 0:
 			initP = minP
 		case 1:
@@ -1303,10 +1575,20 @@ func (e *c04Env) genCreatePool() {
 			maxP = minP
 		case 3:
 			x = sdkmath.ZeroInt()
+		case 4:
+			minP = minP.Add(sdkmath.LegacyNewDecWithPrec(1, 12)) // off the tick grid (pool.go:228)
+		case 5:
+			maxP = maxP.Add(sdkmath.LegacyNewDecWithPrec(1, 12))
+		case 6:
+			initP = initP.Add(sdkmath.LegacyNewDecWithPrec(1, 12))
+		case 7:
+			minP = sdkmath.LegacyNewDecWithPrec(1, 15) // a tick below LowestTick (10^-14) (pool.go:239)
 		}
+		e.foreign = e.rng.Chance(3)
 		e.createPool(app, ui, pairID, x, y, true, minP, maxP, initP)
 		return
 	}
+	e.foreign = e.rng.Chance(3)
 	e.createPool(app, ui, pairID, x, y, false, sdkmath.LegacyDec{}, sdkmath.LegacyDec{}, sdkmath.LegacyDec{})
 }
 
@@ -1366,6 +1648,7 @@ func (e *c04Env) genDeposit(andFarm bool) {
 	if x.IsNegative() {
 		x = sdkmath.ZeroInt()
 	}
+	e.foreign = e.rng.Chance(2)
 	if andFarm {
 		e.depositAndFarm(app, ui, poolID, x, y)
 	} else {
@@ -1479,6 +1762,13 @@ func (e *c04Env) dt() int64 {
 
 func (e *c04Env) runRandom(blocks int, mode int) {
 	e.tiny = mode == 4
+	// modes 4 and 5 are version-1 worlds (limit / market orders and basic pools only): the store migration 1 -> 2 is run once,
+	// somewhere in the middle third of the history, with whatever partially filled orders and pending requests exist then
+	e.v1 = mode == 4 || mode == 5
+	if e.v1 {
+		e.migAt = e.height + int64(blocks/4+e.rng.Intn(blocks/4+1))
+		e.migWait = int64(blocks / 3)
+	}
 	e.setupMarkets()
 	for b := 0; b < blocks; b++ {
 		ntx := e.rng.Intn(7)
@@ -1491,6 +1781,7 @@ func (e *c04Env) runRandom(blocks int, mode int) {
 				{10, 2, 1, 2, 1, 1, 2, 8, 18, 15, 14, 12, 7, 7},
 				{20, 4, 28, 8, 4, 16, 2, 4, 4, 3, 2, 2, 2, 1},
 				{67, 0, 0, 10, 6, 0, 1, 2, 4, 3, 2, 2, 2, 1},
+				{45, 12, 0, 14, 7, 0, 1, 3, 5, 4, 3, 2, 2, 2},
 			}[mode]
 			k := 0
 			for acc := 0; k < len(w); k++ {
@@ -1629,6 +1920,60 @@ func (e *c04Env) witnessLifecycle() {
 	e.nextBlock(50)
 	e.nextBlock(50) // expired
 	e.nextBlock(5)
+	// --- (coverage round 5) a pool whose ENTIRE supply is farmed by its creator; another user's deposit request is pending when the
+	// creator's MsgUnfarmAndWithdraw takes the whole supply out (executed inside the message: supply 0 => disabled); the pending
+	// request is then executed against a disabled pool and refunded (pool.go:495-499)
+	e.createPair(2, 0, e.coins[3], e.coins[4])
+	e.createPool(2, 1, 1, n(20_000_000), n(20_000_000), false, sdkmath.LegacyDec{}, sdkmath.LegacyDec{}, sdkmath.LegacyDec{})
+	all := e.poolCoinBalance(1, 2, 1)
+	e.farm(2, 1, 1, all, false)
+	e.nextBlock(86400 + 5) // the queue entry matures: the creator's position is active
+	e.nextBlock(5)
+	e.deposit(2, 2, 1, n(1_000_000), n(1_000_000)) // pending
+	e.unfarmAndWithdraw(2, 1, 1, all)                // whole supply: active farmer record deleted (rewards.go:460), pool disabled
+	e.farm(2, 1, 1, n(1), false)                     // nothing left to farm
+	e.nextBlock(5)                                   // the pending deposit meets a disabled pool
+	e.nextBlock(5)
+	// exact unfarm of a position spread over queue and active part, down to zero
+	e.createPool(2, 1, 1, n(20_000_000), n(20_000_000), false, sdkmath.LegacyDec{}, sdkmath.LegacyDec{}, sdkmath.LegacyDec{}) // pool 2 (pool 1 is disabled)
+	half := e.poolCoinBalance(1, 2, 2).QuoRaw(2)
+	e.farm(2, 1, 2, half, false)
+	e.nextBlock(86400 + 5)
+	e.nextBlock(5)
+	e.farm(2, 1, 2, half.QuoRaw(2), false)
+	e.unfarm(2, 1, 2, half.Add(half.QuoRaw(2)), false) // queue entry and the whole active position: both records end at zero
+	e.unfarm(2, 1, 2, n(1), false)                      // nothing farmed any more
+	// messages addressed to things that do not exist, wrong pool-coin denoms
+	e.farm(2, 1, 9, n(10), false)
+	e.farm(7, 1, 1, n(10), false)
+	e.farm(2, 1, 2, n(10), true)
+	e.unfarm(2, 1, 9, n(10), false)
+	e.unfarm(7, 1, 1, n(10), false)
+	e.unfarm(2, 1, 2, n(10), true)
+	e.withdraw(2, 1, 9, n(10), false)
+	e.withdraw(7, 1, 1, n(10), false)
+	e.withdraw(2, 1, 2, n(10), true)
+	e.deposit(2, 1, 9, n(10), n(10))
+	e.deposit(7, 1, 1, n(10), n(10))
+	e.depositAndFarm(2, 1, 9, n(10), n(10))
+	e.depositAndFarm(2, 1, 1, n(1_000_000), n(1_000_000)) // disabled pool
+	e.withdraw(2, 1, 1, n(10), false)                       // disabled pool (pool.go:445)
+	e.unfarmAndWithdraw(2, 1, 9, n(10))
+	e.foreign = true
+	e.deposit(2, 1, 2, n(1_000_000), n(1_000_000)) // a coin that is not in the pair (pool.go:382)
+	e.foreign = true
+	e.depositAndFarm(2, 1, 2, n(1_000_000), n(1_000_000)) // (pool.go:847)
+	e.foreign = true
+	e.createPool(2, 1, 1, n(20_000_000), n(20_000_000), true, d("0.5"), d("2"), d("1")) // (pool.go:249)
+	e.createPool(2, 1, 1, n(20_000_000), n(20_000_000), true, d("0.5000001"), d("2"), d("1")) // min price off tick (pool.go:228)
+	e.createPool(2, 1, 1, n(20_000_000), n(20_000_000), true, d("0.000000000000001"), d("2"), d("1")) // below the lowest tick (pool.go:239)
+	// MaxNumActivePoolsPerPair = 20: pool 2 is active; 19 ranged pools more are accepted, the next one is refused (pool.go:117 / 261)
+	for i := 0; i < 20; i++ {
+		e.createPool(2, i%4, 1, n(2_000_000), n(2_000_000), true, d("0.5"), d("2"), d("1"))
+	}
+	e.foreign = true
+	e.createPool(2, 0, 1, n(20_000_000), n(20_000_000), false, sdkmath.LegacyDec{}, sdkmath.LegacyDec{}, sdkmath.LegacyDec{}) // (pool.go:90)
+	e.nextBlock(5)
 }
 
 // witnessCancelAll: one app with three pairs, one owner with orders of mixed ages in all of them; cancel-all with empty,
@@ -1682,6 +2027,136 @@ func (e *c04Env) witnessExecutedInMessage() {
 	}
 }
 
+// witnessMigration: orders that are alive while the module store is migrated from consensus version 1 to 2
+// (keeper.Migrator.Migrate1to2, registered in module.go).  Partially filled sell and buy orders (fee rates 0.3 % and 1.75 %),
+// an untouched resting order, a partially filled market order, a pending deposit request, a pending withdrawal and a farming
+// queue entry live through the migration; afterwards: the owners cancel, one order expires, one is filled further and
+// completes.  Every later refund is judged by the usual monitors (settled_exact, pair_escrow, cancellable, …); the migration
+// step itself by migration_identity.  (Seed s87: RemainingOfferCoin of a migrated order taken from OfferCoin.)
+func (e *c04Env) witnessMigration() {
+	d := func(s string) sdkmath.LegacyDec { return sdkmath.LegacyMustNewDecFromStr(s) }
+	n := func(x int64) sdkmath.Int { return sdkmath.NewInt(x) }
+	e.v1 = true
+	for _, app := range []uint64{1, 2, 3} {
+		e.createPair(app, 0, e.coins[1], e.coins[2])
+	}
+	e.createPool(3, 0, 1, n(50_000_000), n(50_000_000), false, sdkmath.LegacyDec{}, sdkmath.LegacyDec{}, sdkmath.LegacyDec{})
+	e.nextBlock(5)
+	e.nextBlock(5)
+	// app 1 (fee 0.3 %): seller 1 000 000 @ 1.0 for an hour, buyer crosses 400 000 of it, a bystander rests at 1.1
+	e.order(1, 1, 1, 1, false, n(1_003_000), d("1.0"), n(1_000_000), 3600, false)
+	e.order(1, 2, 1, 1, true, n(401_200), d("1.0"), n(400_000), 0, false)
+	e.order(1, 3, 1, 1, false, n(501_500), d("1.1"), n(500_000), 3600, false)
+	// app 2 (fee 1.75 %): a BUY order is the partially filled one (expires 40 s later), plus a resting buy far below
+	e.order(2, 2, 1, 1, true, n(2_035_000), d("1.0"), n(2_000_000), 40, false)
+	e.order(2, 1, 1, 1, false, n(712_250), d("1.0"), n(700_000), 0, false)
+	e.order(2, 3, 1, 1, true, n(1_000_000), d("0.95"), n(900_000), 3600, false)
+	// app 3 (fee 0, two-block batches, a pool): pending requests and a farming queue entry
+	e.deposit(3, 1, 1, n(3_000_000), n(3_000_000))
+	e.withdraw(3, 0, 1, e.poolCoinBalance(0, 3, 1).QuoRaw(10), false)
+	e.farm(3, 0, 1, e.poolCoinBalance(0, 3, 1).QuoRaw(20), false)
+	e.order(3, 2, 1, 1, false, n(6_000_000), d("1.02"), n(5_000_000), 3600, false)
+	e.nextBlock(5) // batches of apps 1 and 2: the partial fills
+	// a market order (last price exists now in apps 1 and 2) that is only partially filled: sells 900 000 into the resting buy of 900 000 @ 0.95 … and the 1.0 buyer
+	e.order(2, 0, 1, 2, false, n(3_100_000), sdkmath.LegacyZeroDec(), n(3_000_000), 3600, false)
+	e.migAt = e.height + 1
+	e.nextBlock(5) // EndBlocker, then — at the start of the next block — the store migration, then the BeginBlocker
+	if e.migAt != 0 {
+		e.t.Fatalf("witnessMigration: the migration did not run")
+	}
+	e.cancel(1, 1, 1, 1)                                                            // the partially filled seller: unspent offer + fee reserve − fee on the executed part
+	e.cancel(1, 3, 1, 3)                                                            // the bystander: refunded in full — the escrow must still hold it
+	e.order(1, 2, 1, 1, true, n(300_900), d("1.0"), n(300_000), 0, false)           // nothing left to match in app 1
+	e.order(2, 1, 1, 1, false, n(1_322_750), d("1.0"), n(1_300_000), 0, false)      // fills the migrated buy order of app 2 completely
+	e.nextBlock(5)
+	e.cancelAll(2, 0, nil) // the rest of the migrated market order
+	e.cancelAll(2, 3, []uint64{1})
+	e.nextBlock(50) // anything left of the 40 s buy order expires
+	e.nextBlock(5)
+	e.cancel(3, 2, 1, 1)
+	e.nextBlock(5)
+	e.nextBlock(5)
+}
+
+// witnessRejections: every validation branch of MsgLimitOrder / MsgMarketOrder / MsgMMOrder / MsgCancel* that the model now
+// computes itself (price limits, tick grid, denoms, minimum order size, same-batch replace), once each, next to an accepted
+// twin — a change to any of them in the code is a DIFF on a line of this witness.
+func (e *c04Env) witnessRejections() {
+	d := func(s string) sdkmath.LegacyDec { return sdkmath.LegacyMustNewDecFromStr(s) }
+	n := func(x int64) sdkmath.Int { return sdkmath.NewInt(x) }
+	e.createPair(1, 0, e.coins[1], e.coins[2]) // app 1 pair 1: base c1, quote c2
+	e.createPair(2, 0, e.coins[2], e.coins[3]) // app 2 pair 1 (fee 1.75 %)
+	// no last price yet: the whole tick range is allowed; market orders are refused
+	e.order(1, 1, 1, 2, true, n(1_000_000), sdkmath.LegacyZeroDec(), n(100_000), 60, false) // ErrNoLastPrice
+	e.order(1, 1, 1, 1, false, n(2_006_000), d("0.5"), n(2_000_000), 3600, false)
+	e.order(1, 2, 1, 1, true, n(501_500), d("0.5"), n(1_000_000), 0, false)
+	e.order(2, 1, 1, 1, false, n(2_035_000), d("0.5"), n(2_000_000), 3600, false)
+	e.order(2, 2, 1, 1, true, n(508_750), d("0.5"), n(1_000_000), 0, false)
+	e.nextBlock(5) // last price 0.5 in both pairs: limits [0.45, 0.55]
+	// limit orders around the limits
+	e.order(1, 3, 1, 1, true, n(600_000), d("0.55"), n(1_000_000), 60, false)                  // exactly the upper limit: accepted
+	e.order(1, 3, 1, 1, true, n(600_000), d("0.55001"), n(1_000_000), 60, false)              // above: ErrPriceOutOfRange
+	e.order(1, 3, 1, 1, false, n(1_003_000), d("0.45"), n(1_000_000), 60, false)              // exactly the lower limit
+	e.order(1, 3, 1, 1, false, n(1_003_000), d("0.44999"), n(1_000_000), 60, false)            // below
+	e.order(1, 3, 1, 1, true, n(600_000), d("0.5123456"), n(1_000_000), 60, false)            // off tick: fitted DOWN for a buy
+	e.order(1, 3, 1, 1, false, n(1_003_000), d("0.5123456"), n(1_000_000), 60, false)         // … UP for a sell
+	e.order(1, 3, 1, 1, true, n(600_000), d("0.5"), n(199), 60, false)                        // 0.5·199 < 100: ErrTooSmallOrder
+	e.order(1, 3, 1, 1, true, n(600_000), d("0.5"), n(200), 60, false)                        // 0.5·200 = 100: accepted
+	e.order(1, 3, 1, 1, true, n(600_000), d("0.5"), n(1_000_000), 60, true)                   // denoms swapped: ErrWrongPair
+	// market orders
+	e.order(1, 3, 1, 2, true, n(600_000), sdkmath.LegacyZeroDec(), n(1_000_000), 60, false)   // price = tick↓(0.5·1.1)
+	e.order(1, 3, 1, 2, false, n(1_003_000), sdkmath.LegacyZeroDec(), n(1_000_000), 60, false) // price = tick↑(0.5·0.9)
+	e.order(1, 3, 1, 2, false, n(1_003_000), sdkmath.LegacyZeroDec(), n(1_000_000), 60, true) // sell with swapped denoms (swap.go:206)
+	e.order(1, 3, 1, 2, true, n(600_000), sdkmath.LegacyZeroDec(), n(1_000_000), 60, true)    // buy with swapped denoms (swap.go:193)
+	e.order(1, 3, 1, 2, false, n(1_002_999), sdkmath.LegacyZeroDec(), n(1_000_000), 60, false) // one short of amount + fee (swap.go:214)
+	e.order(1, 3, 1, 2, true, n(551_649), sdkmath.LegacyZeroDec(), n(1_000_000), 60, false)   // one short of ⌈0.55·amount⌉ + fee
+	e.order(1, 3, 1, 2, true, n(551_650), sdkmath.LegacyZeroDec(), n(1_000_000), 60, false)   // exactly enough
+	e.order(1, 3, 1, 2, false, n(10_000), sdkmath.LegacyZeroDec(), n(222), 60, false)          // 0.45·222 < 100 (swap.go:219)
+	e.order(1, 3, 1, 2, false, n(10_000), sdkmath.LegacyZeroDec(), n(223), 60, false)          // 0.45·223 ≥ 100
+	e.order(2, 3, 1, 2, false, n(1_017_500), sdkmath.LegacyZeroDec(), n(1_000_000), 60, false) // fee 1.75 %: exactly enough
+	e.order(2, 3, 1, 2, false, n(1_017_499), sdkmath.LegacyZeroDec(), n(1_000_000), 60, false) // one short
+	// market-making orders: each of the four prices off the tick grid / out of range, once
+	ok := func(maxS, minS, maxB, minB string) {
+		e.mmOrder(1, 2, 1, d(maxS), d(minS), n(1_000_000), d(maxB), d(minB), n(1_000_000), 60)
+	}
+	ok("0.54", "0.51", "0.49", "0.46")     // accepted: 10 + 10 ticks
+	ok("0.54", "0.51", "0.49", "0.46")     // same batch: ErrSameBatch (swap.go:373), nothing changes
+	ok("0.54", "0.510001", "0.49", "0.46") // min sell off tick (swap.go:286) — the validations come before the replace
+	ok("0.540001", "0.51", "0.49", "0.46") // max sell off tick
+	ok("0.54", "0.51", "0.49", "0.460001") // min buy off tick
+	ok("0.54", "0.51", "0.490001", "0.46") // max buy off tick (swap.go:297)
+	ok("0.54", "0.44", "0.49", "0.46")     // min sell below the range (swap.go:316)
+	ok("0.56", "0.51", "0.49", "0.46")     // max sell above
+	ok("0.54", "0.51", "0.49", "0.44")     // min buy below
+	ok("0.54", "0.51", "0.56", "0.46")     // max buy above (swap.go:327)
+	e.mmOrder(1, 2, 1, d("0.52"), d("0.51"), n(150), d("0.49"), d("0.48"), n(99), 60) // buy amount below the minimum (ValidateBasic)
+	e.mmOrder(1, 4, 1, d("0.52"), d("0.51"), n(0), d("0.49"), d("0.48"), n(100_000_000), 60) // the poor account: quote coins insufficient (swap.go:359)
+	e.mmOrder(1, 4, 1, d("0.52"), d("0.51"), n(100_000_000), d("0.49"), d("0.48"), n(0), 60) // … base coins insufficient
+	e.nextBlock(5)
+	if pr, found := e.pair(1, 1); found && pr.LastPrice != nil {
+		lo, hi := e.priceLimits(1, pr)
+		tp := e.tickPrec(1)
+		e.mmOrder(1, 2, 1, hi, lo, n(1_000_000), hi, lo, n(1_000_000), 60) // exactly the limits on both sides: accepted, replaces the first one
+		e.nextBlock(5)
+		e.mmOrder(1, 2, 1, amm.UpTick(hi, tp), lo, n(1_000_000), hi, lo, n(1_000_000), 60) // one tick beyond
+		mid := amm.PriceToDownTick(*pr.LastPrice, tp)
+		e.mmOrder(1, 2, 1, amm.UpTick(amm.UpTick(mid, tp), tp), amm.UpTick(mid, tp), n(1_000_000), amm.DownTick(mid, tp), amm.DownTick(amm.DownTick(mid, tp), tp), n(1_000_000), 60) // adjacent ticks: the walk yields duplicates
+		e.nextBlock(5)
+		e.mmOrder(1, 2, 1, hi, hi, n(1_000_000), lo, lo, n(0), 60) // sell side only, one tick
+	}
+	// cancels that are refused before any order is looked at
+	e.cancelMM(1, 2, 9)  // pair not found (swap.go:585)
+	e.cancelMM(7, 2, 1)  // app not found
+	e.cancel(7, 3, 1, 1) // app not found (swap.go:445)
+	e.cancel(1, 3, 1, 99)
+	e.cancelAll(7, 3, nil) // app not found (swap.go:496)
+	e.nextBlock(5)
+	e.cancelMM(1, 2, 1)
+	e.cancelAll(1, 3, nil)
+	e.nextBlock(70)
+	e.nextBlock(5)
+}
+
 func c04Run(t *testing.T, prop string) {
 	tr := OpenTrace(t, strings.ToLower(prop)+".trace")
 	defer tr.Close(t)
@@ -1696,6 +2171,10 @@ func c04Run(t *testing.T, prop string) {
 	e.witnessCancelAll()
 	e = c04NewEnv(t, tr, rng, prop, 0)
 	e.witnessExecutedInMessage()
+	e = c04NewEnv(t, tr, rng, prop, 0)
+	e.witnessMigration()
+	e = c04NewEnv(t, tr, rng, prop, 0)
+	e.witnessRejections()
 	nseq := scale(10, 120)
 	blocks := scale(45, 110)
 	if os := envInt("VERIF_SEARCH", 0); os == 1 {
@@ -1703,7 +2182,7 @@ func c04Run(t *testing.T, prop string) {
 	}
 	tot, ok := 0, 0
 	for s := 0; s < nseq; s++ {
-		mode := s % 5
+		mode := s % 6
 		if prop == "C07" && mode == 2 {
 			mode = 3 // C07: more market-making, fewer farming sequences
 		}
